@@ -256,7 +256,7 @@ func c19SrvScenario(variant string, dotu bool, D int) Scenario {
 		fs := NewFS()
 		fs.FlushMode = "cancel"
 		fs.NoLateAnswer = true // an implementation that cancels a request must not go on answering it
-		h := NewSrvH(fs, SrvOpt{Msize: 8216, Dotu: dotu, Flush: variant != "flush-without-flushop", Maxpend: 1})
+		h := NewSrvH(fs, SrvOpt{Msize: 8216, Dotu: dotu, Flush: variant != "flush-without-flushop" && variant != "flush-of-flush", Maxpend: 1})
 		c := h.Connect()
 		ver := "9P2000"
 		if dotu {
@@ -293,6 +293,23 @@ func c19SrvScenario(variant string, dotu bool, D int) Scenario {
 			c.Send(dotu, &wire.Msg{Type: wire.Tread, Tag: 20, Fid: 1, Count: 8}, &wire.Msg{Type: wire.Tstat, Tag: 21, Fid: 2})
 			c.Send(dotu, &wire.Msg{Type: wire.Tflush, Tag: 22, Oldtag: 20}, &wire.Msg{Type: wire.Tstat, Tag: 23, Fid: 0})
 			vs.Go("releaser", func() { gate.Release() })
+			vs.Idle()
+		case "flush-of-flush":
+			// a request held in the implementation, a Tflush waiting for it, and - at the moment the
+			// request completes - a Tflush of that Tflush (flushes are requests on no fid at all)
+			c.Version(8216, ver)
+			c.Rpc(att)
+			c.Rpc(twalk(2, 0, 1, "f"))
+			c.Rpc(&wire.Msg{Type: wire.Topen, Tag: 4, Fid: 1, Mode: 0})
+			gate := vs.NewSem(0)
+			fs.Script[reqKey{0, 20, 0}] = &Action{Gate: gate}
+			c.Send(dotu, &wire.Msg{Type: wire.Tread, Tag: 20, Fid: 1, Count: 8})
+			vs.Idle()
+			c.Send(dotu, &wire.Msg{Type: wire.Tflush, Tag: 22, Oldtag: 20})
+			vs.Idle()
+			vs.Window(true)
+			vs.Go("releaser", func() { gate.Release() })
+			c.Send(dotu, &wire.Msg{Type: wire.Tflush, Tag: 24, Oldtag: 22})
 			vs.Idle()
 		case "second-connection":
 			c.Version(8216, ver)
@@ -471,7 +488,7 @@ func c19Scenarios(tier string) []Scenario {
 	var out []Scenario
 	for _, dotu := range []bool{false, true} {
 		out = append(out, c19UfsScenario(2, dotu, D))
-		for _, v := range []string{"version-then-pipeline", "flush", "flush-without-flushop", "second-connection"} {
+		for _, v := range []string{"version-then-pipeline", "flush", "flush-without-flushop", "flush-of-flush", "second-connection"} {
 			out = append(out, c19SrvScenario(v, dotu, D))
 		}
 		out = append(out, c19ClientScenario(2, dotu, D))
